@@ -101,6 +101,15 @@ pub fn run(tier: Tier) -> i32 {
     report.assume("LMDB/heed get/put/delete/cursor semantics; roaring's portable serialisation; rayon");
     report.assume("builds run in a private 1-thread rayon pool (schedules are C13's subject)");
     crate::props::run_hist_runs(&mut report, "C01", &runs(tier));
+    // several indexes in one database
+    let two: Vec<(crate::txnsys::TxnCfg, Caps)> = match tier {
+        Tier::Quick => vec![(crate::props::txn_props::c01_two_index_cfg(Metric::Manhattan, 6), Caps { max_transitions: 5_000_000, max_wall: Duration::from_secs(15), max_signatures: 12 })],
+        Tier::Thorough => M7
+            .iter()
+            .map(|m| (crate::props::txn_props::c01_two_index_cfg(*m, 7), Caps { max_transitions: 50_000_000, max_wall: Duration::from_secs(200), max_signatures: 12 }))
+            .collect(),
+    };
+    crate::props::txn_props::run_txn(&mut report, "C01", two);
     report.cov(
         "oracle",
         "S(index) on the decoded raw dump after every build; forest keys untouched by item operations; upstream assert_validity cross-check",
